@@ -184,6 +184,10 @@ pub fn lay(toks: &[Tok], layout: Layout, rng: &mut Rng) -> (Laid, Vec<&'static s
                     }
                 }
                 Layout::Random | Layout::RandomWithPrefix => {
+                    if prev.s.ends_with('/') {
+                        // `/` followed by a comment would itself become a comment opener
+                        text.push(' ');
+                    }
                     random_gap(rng, t.ws_only_before, !can_glue, &mut text, &mut kinds);
                 }
             }
